@@ -23,7 +23,7 @@ theorem provide_nodup (L : Legacy) (W : World V) (o : Opts V) (f : PField V) (v 
       · exact hc
       · exact nodup_keys_dset _ _ _ hc
 
-theorem ffExcluded_nodup (o : Opts V) (f : PField V) (st : St V) (h : KeysNodup st) : KeysNodup (ffExcluded o f st) := by
+theorem ffExcluded_nodup (o : Opts V) (f : PField V) (st : St V) (h : KeysNodup st) : KeysNodup (ffExcluded W o f st) := by
   unfold ffExcluded KeysNodup
   simp only
   split
@@ -31,7 +31,7 @@ theorem ffExcluded_nodup (o : Opts V) (f : PField V) (st : St V) (h : KeysNodup 
   · exact h
 
 theorem absent_nodup (L : Legacy) (o : Opts V) (f : PField V) (st : St V) (h : KeysNodup st) :
-    KeysNodup (absent L o f st) := by
+    KeysNodup (absent L W o f st) := by
   unfold absent KeysNodup
   simp only
   split
